@@ -23,6 +23,11 @@ const minNormalFloat64 = 0x1p-1022
 // is not greater than tol times the greater absolute value of a and b,
 //
 //	abs(a-b) <= tol * max(abs(a), abs(b)).
+//
+// A difference not greater than the smallest normal float64, 2^-1022,
+// is compared with tol times that number instead,
+//
+//	abs(a-b) <= tol * 2^-1022.
 func EqualWithinRel(a, b, tol float64) bool {
 	if a == b {
 		return true
